@@ -85,6 +85,7 @@ def handle (st : St) (l : Line) : Option (St × List String × Option String) :=
   else
     let verb ← l.verbs[2]?
     match verb with
+    | "shardext_steal" => pure (st, ["val n=" ++ (l.get "n").getD "?" ++ " bad_a=0 bad_b=0"], none)
     | "shardext_stress" => pure (st, ["val n=" ++ (l.get "n").getD "?" ++ " bad_a=0 bad_b=0"], none)
     | "set_ccm" => pure (st, ["ok"], none)
     | "set_ct" => pure (st, ["ok"], none)
